@@ -5,6 +5,7 @@ package websocket
 import (
 	"bufio"
 	"context"
+	cryptorand "crypto/rand"
 	"fmt"
 	"io"
 	"net"
@@ -273,9 +274,12 @@ func (m *mu) tryLock() bool {
 	}
 }
 
-// VerifSelect is set by the C18 verification harness only (this file is a build
-// overlay copy of conn.go of github.com/coder/websocket v1.8.14; the only change
-// is this variable and the block at the top of (*mu).lock that uses it).
+// VerifSelect is set by the C18 verification harness only. This directory is a
+// local copy of github.com/coder/websocket v1.8.14 (tests, examples and js files
+// removed) that replaces the module for the build of /verif/checks/c18 only
+// (testdata/go.mod.overlay). The changes against the original are: VerifSelect
+// and the block at the top of (*mu).lock that uses it, and VerifRand /
+// randReader() below (used in write.go and dial.go instead of rand.Reader).
 //
 // Go's select picks at random among ready cases. In (*mu).lock two cases can be
 // ready at once with different effects: "ctx is done" (lock returns an error and
@@ -286,6 +290,20 @@ func (m *mu) tryLock() bool {
 // "context wins" and 1 for "lock wins". Every answer is a behaviour the
 // unmodified select can show.
 var VerifSelect func(site string, n int) int
+
+// VerifRand, when set by the C18 verification harness, replaces crypto/rand as
+// the source of frame masks and of the Sec-WebSocket-Key (write.go, dial.go:
+// rand.Reader -> randReader()). The values are only echoed, never compared; the
+// point is that no system call (a scheduling opportunity for the Go runtime)
+// happens inside a step of the model checker.
+var VerifRand io.Reader
+
+func randReader() io.Reader {
+	if r := VerifRand; r != nil {
+		return r
+	}
+	return cryptorand.Reader
+}
 
 func (m *mu) lock(ctx context.Context) error {
 	if h := VerifSelect; h != nil {
